@@ -38,7 +38,7 @@ class SetOrderSeam:
 
     def _mk(self, it):
         s = OrderedIterSet(it)
-        members = list(set.__iter__(s))
+        members = list(builtins.set.__iter__(s))
         try:
             members.sort(key=self.rank)
         except Exception:
@@ -48,16 +48,22 @@ class SetOrderSeam:
         return s
 
     def __enter__(self):
-        bmod = sys.modules["torchjd.autojac.backward"]
+        """Shadows the name ``set`` in EVERY loaded module of ``torchjd.autojac`` (so that a set built by ``set(...)``
+        anywhere in the differentiation layer - inputs, Init's values, required keys ... - iterates in the imposed
+        order) and wraps ``_get_leaf_tensors`` where it is imported by name. Set displays/comprehensions cannot be
+        shadowed; they are covered by role rotation."""
         seam = self
 
         def fake_set(*a):
             return seam._mk(*a) if a else builtins.set()
 
-        self._patch(bmod, "set", fake_set)
-        orig = bmod.__dict__.get("_get_leaf_tensors")
-        if orig is not None:
-            self._patch(bmod, "_get_leaf_tensors", lambda *a, **k: seam._mk(orig(*a, **k)))
+        for name, mod in list(sys.modules.items()):
+            if mod is None or not (name == "torchjd.autojac" or name.startswith("torchjd.autojac.")):
+                continue
+            self._patch(mod, "set", fake_set)
+            orig = mod.__dict__.get("_get_leaf_tensors")
+            if orig is not None and name in ("torchjd.autojac.backward", "torchjd.autojac.mtl_backward"):
+                self._patch(mod, "_get_leaf_tensors", (lambda o: (lambda *a, **k: seam._mk(o(*a, **k))))(orig))
         return self
 
     def _patch(self, mod, name, val):
